@@ -462,7 +462,7 @@ class FilterHarness:
 
     def __init__(self, kind, n_rows, sensors, meas_mode='list', with_altitude=True,
                  with_increments=False, model_states=(0, 0), garbage_models=False,
-                 t_max=1000, rounded=False, default_step=False, patch=None, default_models=False):
+                 t_max=1000, rounded=False, default_step=False, patch=None, default_models=False, havoc_add=False):
         self.kind = kind
         self.n_rows = n_rows
         self.sensors = sensors
@@ -473,6 +473,7 @@ class FilterHarness:
         self.garbage_models = garbage_models
         self.rounded = rounded
         self.default_step = default_step
+        self.havoc_add = havoc_add
         self.default_models = default_models
         self.log = []
         n_stamps = n_rows + 1 if kind == 'feedback' else n_rows
@@ -558,6 +559,7 @@ class FilterHarness:
         self.fuel_calls = Fuel(60 * (self.loop_fuel + 1) * (len(self.sensors) + 1))
         ex = paths.CUR
         ex.rounded = self.rounded
+        ex.havoc_add = self.havoc_add
         if self.rounded:
             ex.round_bound = z3.Q(3 * self.t_max, 2 ** 53)
         meas = []
